@@ -298,3 +298,118 @@ Theorem C03_sub_unsigned_concrete : forall b x y,
       den inp b' ov = (X <? Y).
 Proof. exact (sub_gadget_unsigned BuilderProofs.inv BuilderProofs.builder_sound). Qed.
 Print Assumptions C03_sub_unsigned_concrete.
+
+(* ------------------------------------------------------------------------------------
+   Operator LOWERING (Compile/Lower.v = the model of src/compile.rs, tied gate for gate to the real
+   compiler; instance TSem.tops = its bit-level semantics, which every emitted circuit computes
+   for all inputs by C01_circuit_computes_bit_semantics): each operator, for EVERY width, is
+   bit-exact checked two's-complement arithmetic in the vocabulary of Lang/Sem.v (in_range,
+   wrap): result bits, which panic, and exactly when.  Statements: Compile/TSemArith1.v (add,
+   sub, neg, comparisons, equality, bitwise, division and remainder) and Compile/TSemArith2.v
+   (casts, shifts, the array multiplier unsigned and signed). *)
+From GV Require Import Compile.Lower Compile.TSem Compile.TSemArith1 Compile.TSemArith2.
+Theorem C03_lowering_lower_add_unsigned : ltac:(let T := type of lower_add_unsigned in exact T).
+Proof. exact lower_add_unsigned. Qed.
+Print Assumptions C03_lowering_lower_add_unsigned.
+Theorem C03_lowering_lower_add_signed : ltac:(let T := type of lower_add_signed in exact T).
+Proof. exact lower_add_signed. Qed.
+Print Assumptions C03_lowering_lower_add_signed.
+Theorem C03_lowering_lower_sub_unsigned : ltac:(let T := type of lower_sub_unsigned in exact T).
+Proof. exact lower_sub_unsigned. Qed.
+Print Assumptions C03_lowering_lower_sub_unsigned.
+Theorem C03_lowering_lower_sub_signed : ltac:(let T := type of lower_sub_signed in exact T).
+Proof. exact lower_sub_signed. Qed.
+Print Assumptions C03_lowering_lower_sub_signed.
+Theorem C03_lowering_lower_neg_correct : ltac:(let T := type of lower_neg_correct in exact T).
+Proof. exact lower_neg_correct. Qed.
+Print Assumptions C03_lowering_lower_neg_correct.
+Theorem C03_lowering_lower_lt_unsigned : ltac:(let T := type of lower_lt_unsigned in exact T).
+Proof. exact lower_lt_unsigned. Qed.
+Print Assumptions C03_lowering_lower_lt_unsigned.
+Theorem C03_lowering_lower_gt_unsigned : ltac:(let T := type of lower_gt_unsigned in exact T).
+Proof. exact lower_gt_unsigned. Qed.
+Print Assumptions C03_lowering_lower_gt_unsigned.
+Theorem C03_lowering_lower_lt_signed : ltac:(let T := type of lower_lt_signed in exact T).
+Proof. exact lower_lt_signed. Qed.
+Print Assumptions C03_lowering_lower_lt_signed.
+Theorem C03_lowering_lower_gt_signed : ltac:(let T := type of lower_gt_signed in exact T).
+Proof. exact lower_gt_signed. Qed.
+Print Assumptions C03_lowering_lower_gt_signed.
+Theorem C03_lowering_lower_eq_unsigned : ltac:(let T := type of lower_eq_unsigned in exact T).
+Proof. exact lower_eq_unsigned. Qed.
+Print Assumptions C03_lowering_lower_eq_unsigned.
+Theorem C03_lowering_lower_ne_unsigned : ltac:(let T := type of lower_ne_unsigned in exact T).
+Proof. exact lower_ne_unsigned. Qed.
+Print Assumptions C03_lowering_lower_ne_unsigned.
+Theorem C03_lowering_lower_eq_signed : ltac:(let T := type of lower_eq_signed in exact T).
+Proof. exact lower_eq_signed. Qed.
+Print Assumptions C03_lowering_lower_eq_signed.
+Theorem C03_lowering_lower_ne_signed : ltac:(let T := type of lower_ne_signed in exact T).
+Proof. exact lower_ne_signed. Qed.
+Print Assumptions C03_lowering_lower_ne_signed.
+Theorem C03_lowering_lower_bitand_unsigned : ltac:(let T := type of lower_bitand_unsigned in exact T).
+Proof. exact lower_bitand_unsigned. Qed.
+Print Assumptions C03_lowering_lower_bitand_unsigned.
+Theorem C03_lowering_lower_bitxor_unsigned : ltac:(let T := type of lower_bitxor_unsigned in exact T).
+Proof. exact lower_bitxor_unsigned. Qed.
+Print Assumptions C03_lowering_lower_bitxor_unsigned.
+Theorem C03_lowering_lower_bitor_unsigned : ltac:(let T := type of lower_bitor_unsigned in exact T).
+Proof. exact lower_bitor_unsigned. Qed.
+Print Assumptions C03_lowering_lower_bitor_unsigned.
+Theorem C03_lowering_lower_bitand_signed : ltac:(let T := type of lower_bitand_signed in exact T).
+Proof. exact lower_bitand_signed. Qed.
+Print Assumptions C03_lowering_lower_bitand_signed.
+Theorem C03_lowering_lower_bitxor_signed : ltac:(let T := type of lower_bitxor_signed in exact T).
+Proof. exact lower_bitxor_signed. Qed.
+Print Assumptions C03_lowering_lower_bitxor_signed.
+Theorem C03_lowering_lower_bitor_signed : ltac:(let T := type of lower_bitor_signed in exact T).
+Proof. exact lower_bitor_signed. Qed.
+Print Assumptions C03_lowering_lower_bitor_signed.
+Theorem C03_lowering_lower_div_unsigned : ltac:(let T := type of lower_div_unsigned in exact T).
+Proof. exact lower_div_unsigned. Qed.
+Print Assumptions C03_lowering_lower_div_unsigned.
+Theorem C03_lowering_lower_mod_unsigned : ltac:(let T := type of lower_mod_unsigned in exact T).
+Proof. exact lower_mod_unsigned. Qed.
+Print Assumptions C03_lowering_lower_mod_unsigned.
+Theorem C03_lowering_lower_div_signed : ltac:(let T := type of lower_div_signed in exact T).
+Proof. exact lower_div_signed. Qed.
+Print Assumptions C03_lowering_lower_div_signed.
+Theorem C03_lowering_lower_mod_signed : ltac:(let T := type of lower_mod_signed in exact T).
+Proof. exact lower_mod_signed. Qed.
+Print Assumptions C03_lowering_lower_mod_signed.
+Theorem C03_lowering_sval_enc_in_range : ltac:(let T := type of sval_enc_in_range in exact T).
+Proof. exact sval_enc_in_range. Qed.
+Print Assumptions C03_lowering_sval_enc_in_range.
+Theorem C03_lowering_uval_enc_in_range : ltac:(let T := type of uval_enc_in_range in exact T).
+Proof. exact uval_enc_in_range. Qed.
+Print Assumptions C03_lowering_uval_enc_in_range.
+Theorem C03_lowering_tsem_zext_correct : ltac:(let T := type of tsem_zext_correct in exact T).
+Proof. exact tsem_zext_correct. Qed.
+Print Assumptions C03_lowering_tsem_zext_correct.
+Theorem C03_lowering_tsem_sext_correct : ltac:(let T := type of tsem_sext_correct in exact T).
+Proof. exact tsem_sext_correct. Qed.
+Print Assumptions C03_lowering_tsem_sext_correct.
+Theorem C03_lowering_tsem_truncate_correct : ltac:(let T := type of tsem_truncate_correct in exact T).
+Proof. exact tsem_truncate_correct. Qed.
+Print Assumptions C03_lowering_tsem_truncate_correct.
+Theorem C03_lowering_tsem_cast_correct : ltac:(let T := type of tsem_cast_correct in exact T).
+Proof. exact tsem_cast_correct. Qed.
+Print Assumptions C03_lowering_tsem_cast_correct.
+Theorem C03_lowering_tsem_shift_layers_value : ltac:(let T := type of tsem_shift_layers_value in exact T).
+Proof. exact tsem_shift_layers_value. Qed.
+Print Assumptions C03_lowering_tsem_shift_layers_value.
+Theorem C03_lowering_tsem_shift_correct : ltac:(let T := type of tsem_shift_correct in exact T).
+Proof. exact tsem_shift_correct. Qed.
+Print Assumptions C03_lowering_tsem_shift_correct.
+Theorem C03_lowering_tsem_lower_shift_other_width : ltac:(let T := type of tsem_lower_shift_other_width in exact T).
+Proof. exact tsem_lower_shift_other_width. Qed.
+Print Assumptions C03_lowering_tsem_lower_shift_other_width.
+Theorem C03_lowering_tsem_mul_unsigned : ltac:(let T := type of tsem_mul_unsigned in exact T).
+Proof. exact tsem_mul_unsigned. Qed.
+Print Assumptions C03_lowering_tsem_mul_unsigned.
+Theorem C03_lowering_tsem_mul_signed : ltac:(let T := type of tsem_mul_signed in exact T).
+Proof. exact tsem_mul_signed. Qed.
+Print Assumptions C03_lowering_tsem_mul_signed.
+Theorem C03_lowering_tsem_binop_mul_checked : ltac:(let T := type of tsem_binop_mul_checked in exact T).
+Proof. exact tsem_binop_mul_checked. Qed.
+Print Assumptions C03_lowering_tsem_binop_mul_checked.
